@@ -202,6 +202,16 @@ def _single_return(f):
     body = [s for s in f.node.body if not (isinstance(s, ast.Expr) and isinstance(s.value, ast.Constant))]
     if len(body) == 1 and isinstance(body[0], ast.Return) and body[0].value is not None:
         return body[0]
+    # named temporaries followed by the return: the same delegation written in several statements
+    if body and isinstance(body[-1], ast.Return) and body[-1].value is not None and all(isinstance(s, ast.Assign) and len(s.targets) == 1 and isinstance(s.targets[0], ast.Name) for s in body[:-1]):
+        from ..common import inline_locals
+
+        v = inline_locals(f.node, body[-1].value, depth=6)
+        if not any(isinstance(n, ast.Name) and n.id in {s.targets[0].id for s in body[:-1]} for n in ast.walk(v)):
+            r = ast.Return(value=v)
+            ast.copy_location(r, body[-1])
+            ast.fix_missing_locations(r)
+            return r
     return None
 
 
@@ -237,6 +247,11 @@ def _check_core_call(ctx, f, call, ct, operand, problems, forward_names):
         return
     first = callee.call_params[0] if ct.bound or callee.binds_first else callee.pos_params[0]
     a = b.params.get(first)
+    # a shallow copy of the operand is the operand
+    while isinstance(a, ast.Call) and isinstance(a.func, ast.Name) and a.func.id in ("list", "tuple") and len(a.args) == 1 and not a.keywords:
+        a = a.args[0]
+    if isinstance(a, ast.Subscript) and isinstance(a.slice, ast.Slice) and a.slice.lower is None and a.slice.upper is None and a.slice.step is None:
+        a = a.value
     if not is_name(a, operand):
         problems.append(f"the operand handed to {callee.name} is `{src(a) if a is not None else None}`, not the unmodified `{operand}`")
     for p in forward_names:
